@@ -341,3 +341,18 @@ CHECKS["C18"] = {
         {"name": "mutex", "pkg": "pkg/cluster", "test": "TestVerifC18mutex", "workers": 8, "pre_cmd": ["bin/c18_traces", "{tier}", "{out}"]},
     ],
 }
+
+CHECKS["C19"] = {
+    "level": "fault_enumeration",
+    "technique": "exhaustive enumeration of write histories x fault points (etcd server stop/start) x consumers x APIs against the real syncer on an embedded etcd",
+    "level_text": "every history of up to 3 (thorough 4) operations from {put k1=v1, put k1=v2, del k1, put k2=v1, del k2, put outside the prefix} x {eager consumer, consumer that reads only afterwards} x {SyncPrefix, Sync (+ raw variants)} "
+                  "x {burst, spaced writes}; thorough: every history of <=2 operations x an etcd server stop+start before every operation and after the last; oracle: each snapshot is a content the store had, positions non-decreasing, "
+                  "consecutive snapshots differ, the final content arrives within 100 pull periods without further writes, nothing spurious follows",
+    "level_note": "schedules inside etcd / the gRPC client are not controlled (free-running): the enumeration is over histories and fault points; a server-side watch cancellation cannot be provoked from outside and is covered only through the restart fault and the periodic pull",
+    "rule": "choice tree: api, consumer, gap, history length, each operation, restart point; distinct_nontrivial = distinct (api, number of distinct contents, number of snapshots) classes",
+    "bounds": {"quick": "histories <=3, 2 APIs, no faults", "thorough": "histories <=4, 4 APIs, 2 gaps; restart at every point of histories <=2"},
+    "assumptions": ["the harness is the only writer of its key prefix", "liveness deadline 100 pull periods (10 s)"],
+    "units": [
+        {"name": "cluster", "pkg": "pkg/cluster", "test": "TestVerifC19", "workers": 12, "deadline_s": {"quick": 240, "thorough": 1700}},
+    ],
+}
